@@ -60,6 +60,16 @@ Theorem C01_file_opaque : forall g ckh ckf t attr state body,
   file_ok dec enc u2s s2u nvar (raw_file_bytes g ckh ckf t attr state body).
 Proof. exact (file_ok_opaque dec enc u2s s2u nvar). Qed.
 
+(* the same in the FFSv3 large form (size field 0xFFFFFF, 64-bit size, 32-byte header), the form of
+   files of 16 MiB and more: any size below 2^64 - 1 *)
+Theorem C01_file_opaque_large : forall g ckh ckf t attr state body,
+  zlen g = 16 -> bytes_ok g = true -> 0 <= ckh < 256 -> 0 <= ckf < 256 -> 0 <= t < 256 ->
+  0 <= attr < 256 -> 0 <= state < 256 -> bytes_ok body = true -> 32 + zlen body < 2 ^ 64 - 1 ->
+  (t =? 1) && bytes_eqb g NVAR_GUID = false ->
+  (supported_file t = false \/ body = []) ->
+  file_ok dec enc u2s s2u nvar (raw_file_bytes_large g ckh ckf t attr state body).
+Proof. exact (file_ok_opaque_large dec enc u2s s2u nvar). Qed.
+
 (* files that fiano rebuilds from their sections: any non-empty sequence of sections that are
    themselves ok, zero padding to 4 between them, any state byte, any alignment / checksum /
    reserved attribute bits; header and body checksums as the PI specification prescribes *)
@@ -86,6 +96,22 @@ Theorem C01_volume : forall zero g attrs reserved rev count bsize files free,
   72 + zlen (flay files) + free < 2 ^ 64 ->
   vol_ok dec enc u2s s2u nvar (vol_bytes zero g attrs reserved rev count bsize files free).
 Proof. exact (vol_ok_files dec enc u2s s2u nvar). Qed.
+
+(* the general volume: a block map of any length ([more] = the entries after the first; header
+   length 72 + 8 * |more|), and optionally an extended header directly after the header (name GUID,
+   size, extra data, then any bytes up to the next 8-byte boundary); the files start after it *)
+Theorem C01_volume_ext : forall zero g attrs reserved rev count bsize more eo ext files free,
+  zlen zero = 16 -> bytes_ok zero = true -> (g = FFS2 \/ g = FFS3) ->
+  0 <= attrs < 2 ^ 32 -> Z.land attrs 2048 <> 0 ->
+  0 <= reserved < 256 -> 0 <= rev < 256 ->
+  0 <= count < 2 ^ 32 -> 0 <= bsize < 2 ^ 32 -> (count =? 0) && (bsize =? 0) = false ->
+  forallb block_ok more = true -> fv_hlen more < 65536 ->
+  ext_ok (fv_hlen more) eo ext ->
+  Forall (file_ok dec enc u2s s2u nvar) files ->
+  files_aligned (fv_hlen more + zlen ext) files = true -> 0 <= free ->
+  fv_hlen more + zlen ext + zlen (flay files) + free < 2 ^ 64 ->
+  vol_ok dec enc u2s s2u nvar (vol_bytes_x zero g attrs reserved rev count bsize more eo ext files free).
+Proof. exact (vol_ok_files_x dec enc u2s s2u nvar). Qed.
 
 (* nesting: a firmware-volume-image section around any ok volume is an ok section, so the rules
    above compose to any depth (volume -> file -> FV-image section -> volume -> ...) *)
@@ -141,8 +167,10 @@ Print Assumptions C01_section_ui.
 Print Assumptions C01_section_version.
 Print Assumptions C01_section_depex.
 Print Assumptions C01_file_opaque.
+Print Assumptions C01_file_opaque_large.
 Print Assumptions C01_file_sections.
 Print Assumptions C01_volume.
+Print Assumptions C01_volume_ext.
 Print Assumptions C01_section_fv_image.
 Print Assumptions C01_save_identity_region.
 Print Assumptions C01_save_identity.
@@ -200,9 +228,109 @@ Definition ex_gfile : fspec :=
     [ SLeaf 16 [77; 90; 1; 2; 3]; SUi [65; 0; 66; 0; 0; 0];
       SDepex 19 [(2, Some (zrepeat 7 16)); (6, None)]; SLeaf 25 [] ].
 Definition ex_gvol : vspec :=
-  VSpec (zrepeat 0 16) FFS2 327423 0 2 4 64
+  VSpec (zrepeat 0 16) FFS2 327423 0 2 4 64 [] None
         [ex_gfile; FOpaque (zrepeat 255 16) 9 170 240 0 248 (zrepeat 255 8)] 40.
 Example ex_grammar_wf :
   wfb_region ex_u2s ex_s2u [(zrepeat 171 16, ex_gvol)] (zrepeat 205 24) = true /\
   bytes_eqb (emit_region [(zrepeat 171 16, ex_gvol)] (zrepeat 205 24)) ex_region = true.
 Proof. vm_compute. split; reflexivity. Qed.
+
+(* a volume with three block-map entries (header length 88) and an extended header (12 extra data
+   bytes, so the files start at offset 120) holding the same files and a third file in the large form,
+   as a region of its own: well-formed, and the model saves it to itself *)
+Definition ex_gvol_x : vspec :=
+  VSpec (zrepeat 0 16) FFS3 327423 0 2 5 64 [(3, 16); (1, 4096)] (Some (zrepeat 51 16, zrepeat 9 12, []))
+        [ex_gfile; FOpaque (zrepeat 255 16) 9 170 240 0 248 (zrepeat 255 8);
+         FOpaqueL (zrepeat 34 16) 1 2 1 1 248 [1; 2; 3; 4; 5]] 56.
+Example ex_grammar_ext :
+  wfb_region ex_u2s ex_s2u [([], ex_gvol_x)] [] = true /\
+  match save_region (fun _ _ => None) (fun _ _ => None) ex_u2s ex_s2u (fun _ => None) 5
+                    (emit_region [([], ex_gvol_x)] []) with
+  | Ok b => bytes_eqb b (emit_region [([], ex_gvol_x)] [])
+  | _ => false
+  end = true.
+Proof. vm_compute. split; reflexivity. Qed.
+
+(* ====================================================================================== *)
+(* The Intel flash image entry shape: saving an unedited flash image (descriptor + regions, the
+   BIOS region holding FFS volumes) reproduces it byte for byte.  Proofs: Proofs/FlashImageProofs.v.
+
+   [save_flash bios_save img]   uefi.Parse + visitors.Save of a flash image, the BIOS region's
+                                 NewBIOSRegion + Assemble being [bios_save] (Model/FlashImage.v)
+   [flash_layout img = Ok t0]    the image has a flash layout: signature, region section inside
+                                 the descriptor, valid BIOS slot, declared regions do not overlap
+   [flash_bios_bytes img]        the bytes of the BIOS region
+   [good_img], [sections_disjoint], [blank_zero]: as in Properties/C12.v.
+   (Model/TightenMe.v re-uses some names of Model/Ffs.v, hence the qualified names below.) *)
+From Fiano Require Import Gen.Consts Model.TightenMe Model.FlashImage
+  Proofs.TightenMeProofs Proofs.FlashImageProofs.
+
+(* the flash level alone: whatever handles the BIOS region, if it reproduces the region's
+   bytes then Parse + Save reproduces the image *)
+Theorem C01_flash_save_identity : forall bios_save img t0,
+  good_img img -> flash_layout img = Ok t0 -> sections_disjoint t0 -> blank_zero t0 ->
+  (forall B, flash_bios_bytes img = Some B -> bios_save B = Ok B) ->
+  save_flash bios_save img = Ok img.
+Proof. exact flash_save_identity. Qed.
+
+Section C01Flash.
+Variable dec : Z -> bytes -> option bytes.
+Variable enc : Z -> bytes -> option bytes.
+Variable u2s s2u : bytes -> bytes.
+Variable nvar : bytes -> option bytes.
+
+(* THE statement for flash images: the BIOS region is any well-formed value of the C01
+   reference grammar (Model/FfsGrammar.v), handled by the UEFI model of Model/Ffs.v *)
+Theorem C01_save_identity_flash : forall img t0 l trail,
+  good_img img -> flash_layout img = Ok t0 -> sections_disjoint t0 -> blank_zero t0 ->
+  flash_bios_bytes img = Some (FfsGrammar.emit_region l trail) ->
+  FfsGrammar.wf_region u2s s2u l trail ->
+  exists d0, forall d, (d0 <= d)%nat ->
+    save_flash (Ffs.save_region dec enc u2s s2u nvar d) img = Ok img.
+Proof. exact (flash_grammar_save_identity dec enc u2s s2u nvar). Qed.
+
+End C01Flash.
+
+Print Assumptions C01_flash_save_identity.
+Print Assumptions C01_save_identity_flash.
+
+(* ---- non-vacuity: an 8 KiB flash image = descriptor + one BIOS block holding an FFS2 volume
+   with a driver file (PE32, UI, dependency expression, RAW sections) and a pad-type file ---- *)
+Definition exf_l : list (bytes * FfsGrammar.vspec) := [(zrepeat 171 16, ex_gvol)].
+Definition exf_trail : bytes :=
+  zrepeat 205 (4096 - zlen (FfsGrammar.emit_region exf_l [])).
+Definition exf_bios : bytes := Eval vm_compute in FfsGrammar.emit_region exf_l exf_trail.
+
+Definition exf_slots : bytes :=
+  [0; 0; 1; 0] ++ (le_enc 2 1 ++ le_enc 2 1) ++ concat (repeat (le_enc 2 32767 ++ le_enc 2 0) 14).
+Definition ex_flash : bytes :=
+  Eval vm_compute in
+  splice 16 ifd_signature (splice 20 [0; 0; 4; 0; 8; 0; 0; 0] (splice 64 exf_slots (zrepeat 255 4096)))
+  ++ exf_bios.
+
+Definition ex_layout : tree :=
+  Eval vm_compute in match flash_layout ex_flash with Ok t => t | _ => mkTree [] 0 0 0 [] 0 [] [] [] 0 end.
+
+Example ex_flash_good : good_img ex_flash.
+Proof. split; [vm_compute; reflexivity|]. split; [exists 2; vm_compute; reflexivity|vm_compute; reflexivity]. Qed.
+
+Example ex_flash_layout : flash_layout ex_flash = Ok ex_layout.
+Proof. vm_compute. reflexivity. Qed.
+
+Example ex_flash_desc : sections_disjoint ex_layout /\ blank_zero ex_layout.
+Proof. split; [right; vm_compute; intros H; discriminate H|vm_compute; reflexivity]. Qed.
+
+Example ex_flash_bios :
+  match flash_bios_bytes ex_flash with
+  | Some b => bytes_eqb b (FfsGrammar.emit_region exf_l exf_trail)
+  | None => false
+  end && FfsGrammar.wfb_region ex_u2s ex_u2s exf_l exf_trail = true.
+Proof. vm_compute. reflexivity. Qed.
+
+(* and the model really saves it to the same bytes *)
+Example ex_flash_roundtrip :
+  match save_flash (Ffs.save_region (fun _ _ => None) (fun _ _ => None) ex_u2s ex_u2s (fun _ => None) 5) ex_flash with
+  | Ok b => bytes_eqb b ex_flash
+  | _ => false
+  end = true.
+Proof. vm_compute. reflexivity. Qed.
